@@ -174,7 +174,7 @@ def run(ctx: Ctx):
     for name, pool in (("diagram rules: plain names", gen.PLAIN), ("diagram rules: prefix-sibling names", ["a", "ab", "a_b", "aa", "b", "ba", "a1", "abc"])):
         s = Stream(ctx, name)
         rng = ctx.rng(name)
-        cases = [make_case(rng, pool) for _ in range(ctx.size(8000, 60000))]
+        cases = [make_case(rng, pool) for _ in range(ctx.size(8000, 200000))]
         judge(ctx, s, cases)
         s.finish()
     return RULE
